@@ -1129,7 +1129,7 @@ def process_dp(run, st, cases, results):
             run.dist("daily_data_class", "refused: %s in %s" % (res["ctor"]["raised"], res["ctor"]["where"]))
             continue
         for sig, msg in oracle_dp(case, res):
-            run.violation(sig, "C06 %s [%s, %s input, observed %s]: %s" % (sig["call"], case["zone"], case["input"], sig["observed"], msg),
+            run.violation(sig, "C06 %s [%s, %s input, observed %s]: %s" % (sig["call"], case["zone"], case["input"], sig.get("observed", "present" if res.get("has_obs") else "absent"), msg),
                           case={"stream": "dp", "case": case}, observation={k: res[k] for k in res if k not in ("rows", "out")},
                           expected="predict(data).index equals data.df.index, chronological; predicted finite iff temperature "
                                    "(and usage, when supplied) finite", generator="c06.gen_dp_cases")
@@ -1278,7 +1278,7 @@ def main():
     MODEL_JSON = fit_hourly()
     run.log("hourly model fitted")
     hp_cases = witness_cases() + gen_hp_cases(rng, plan, run.n(4, 10**6), not run.quick())
-    dp_cases = gen_dp_cases(rng, plan, run.n(200, 2000)) + gen_dp_edge_cases(rng, run.n(90, 1500))
+    dp_cases = gen_dp_cases(rng, plan, run.n(160, 2000)) + gen_dp_edge_cases(rng, run.n(80, 1500))
     jobs = [(z, tr, rng.randrange(2**31), run.quick()) for z, tr in plan if tr]
     with get_context("fork").Pool(int(os.environ.get("VERIF_PROCS", "14"))) as pool:
         r_win = pool.map_async(run_windows, jobs, chunksize=1)
